@@ -476,11 +476,16 @@ fn reason_edges() -> Vec<String> {
         "nul\0".to_string(),
         "\0".to_string(),
         "a\0b\0\0".to_string(),
+        // trailing / leading blanks, also in last place of a 32-bit aligned phrase
+        "Bad Request ".to_string(),
+        "abc ".to_string(),
+        "    ".to_string(),
+        " lead and trail  ".to_string(),
     ]
 }
 
 /// Codes paired with `reason_edges()` (same length).
-const CODE_EDGES: [u16; 16] = [300, 699, 400, 401, 420, 420, 438, 500, 599, 600, 699, 300, 400, 401, 438, 500];
+const CODE_EDGES: [u16; 20] = [300, 699, 400, 401, 420, 420, 438, 500, 599, 600, 699, 300, 400, 401, 438, 500, 400, 404, 487, 508];
 
 fn string_edges(kind: &str) -> Vec<Value> {
     let (min, max, text) = match string_limits(kind) {
